@@ -48,7 +48,7 @@ PROPS = {
     },
     "C02": {
         "kani": ["crux_core"],
-        "verus": [],
+        "verus": ["Q", "X"],
         "kani_timeout_quick": 420,
         "kani_timeout_thorough": 3600,
         "trusted_base": [
@@ -61,8 +61,8 @@ PROPS = {
             "in contract harnesses the continuations are zero-sized (Kani contract checking counts freeing a consumed Box as a write outside modifies(self))",
         ],
         "not_decided": [
-            "that no other task receives the value: rests on each resolve closure owning the only sender of a fresh channel (command/context.rs:52-104) - an ownership fact, unreachable for Kani (crossbeam ICE) and Verus (closures)",
-            "stream consumer ended and cleaned up => resolutions rejected: the Err(()) of the Many closure comes from futures mpsc unbounded_send on a closed channel (context.rs:84-91), modelled here by the alive flag",
+            "that no other task receives the value: each resolve closure owns the only sender of a fresh channel whose receiver goes into the returned future/stream (command/context.rs:52-104) - the constructors are extracted (unit X) but the exclusivity itself is an ownership fact of the Rust type system, not an obligation",
+            "unit X proves the stream continuation reports failure exactly when its own futures-mpsc channel refuses the value; that futures-mpsc refuses a value iff the receiving stream is gone is ASSUMED; the one-shot continuation is only proved never to panic",
             "legacy capability futures (capability/shell_request.rs, shell_stream.rs): mutex + waker + weak reference, not reachable",
             "Core::resolve and Bridge::handle_response wrappers (they reach crossbeam channels)",
         ],
@@ -187,7 +187,7 @@ PROPS = {
     },
     "C06": {
         "kani": [],
-        "verus": ["Q"],
+        "verus": ["Q", "X"],
         "trusted_base": ["Verus 0.2026.09.13 + Z3 (unit Q: extracted Command::{run_task, run_until_settled, is_done, was_aborted} and Stream::poll_next)"],
         "assumptions": [
             "abort flags are read sequentially (c_aborted for the command, aborted_tasks for JoinHandle::abort); they are shared atomics: concurrent setting is not modelled (C08 not claimed)",
@@ -196,7 +196,7 @@ PROPS = {
         ],
         "not_decided": [
             "every injection point in every schedule (before first poll, while pending, between stream items, repeatedly, at every nesting level): the contracts are per call, for any state at entry",
-            "'resolving a request that belonged to cancelled work neither panics nor has any visible consequence': the resolve closures ignoring a closed channel (command/context.rs:59-62,86-91) are closures over futures-mpsc - unreachable (DESIGN 4.A)",
+            "'resolving a request that belonged to cancelled work neither panics nor has any visible consequence': unit X proves the two command-API continuations never panic on a closed channel (the one-shot ignores it, the stream reports Err); 'no visible consequence' beyond that needs the future side",
             "'dropping the hosting future drops the nested command and all its tasks' (command/mod.rs:477-501): async blocks and drop glue",
             "a request dropped unresolved: the eviction decision is proved as stated in run_task, that a dropped request makes the waker count fall is user/std behaviour (havoc)",
         ],
